@@ -135,8 +135,9 @@ impl<E: FieldElement<BaseField = Felt>> AuxColumnBuilder<E> for BusColumnBuilder
             debug_assert_eq!(selector0, ONE);
             debug_assert_eq!(selector1, ONE);
             debug_assert_eq!(selector2, ONE);
+            // only accessed kernel procedures respond on the bus (the kernel procedure table is a
+            // part of the chiplets virtual table, not of the bus)
             build_kernel_chiplet_responses(main_trace, row, selector4, alphas)
-                * build_kernel_procedure_table_responses(main_trace, row, alphas)
         } else {
             debug_assert_eq!(selector0, ONE);
             debug_assert_eq!(selector1, ONE);
@@ -250,13 +251,10 @@ fn chiplets_kernel_table_include<E>(main_trace: &MainTrace, alphas: &[E], row: u
 where
     E: FieldElement<BaseField = Felt>,
 {
-    if main_trace.is_kernel_row(row) && main_trace.is_addr_change(row) {
-        alphas[0]
-            + alphas[1].mul_base(main_trace.addr(row))
-            + alphas[2].mul_base(main_trace.chiplet_kernel_root_0(row))
-            + alphas[3].mul_base(main_trace.chiplet_kernel_root_1(row))
-            + alphas[4].mul_base(main_trace.chiplet_kernel_root_2(row))
-            + alphas[5].mul_base(main_trace.chiplet_kernel_root_3(row))
+    // a row is included when the kernel ROM's address column (not the decoder's) changes between
+    // two rows of the kernel ROM
+    if main_trace.is_kernel_row(row) && main_trace.is_kernel_row(row + 1) {
+        build_kernel_procedure_table_responses(main_trace, row, alphas)
     } else {
         E::ONE
     }
